@@ -16,6 +16,10 @@ PID = "C11"
 LEAN_MODULES = ["MirProofs.Props.C11", "MirProofs.Props.C11_Labels", "MirProofs.Props.C11_GenFns"]
 # C11_GenFns: chord.rotate_bitmap_to_root REGENERATED from the source (harness/translate/scalars_chordfn.py) = ChordCompare.rotate
 TRANSLATOR_PARTS = ["chordfns_rotate"]
+# C11_GenCmp: the twelve comparison functions (+ validate, rotate_bitmaps_to_roots) REGENERATED from the source
+# (harness/translate/chordcmp.py -> lean/MirGen/ChordCmp.lean) = the row model on the rows of encode_many, for all label lists
+LEAN_MODULES += ["MirProofs.Props.C11_GenCmp"]
+TRANSLATOR_PARTS += ["chordcmp"]
 RULE = ("label pairs from a pool of ~5200 grammar-valid encodable labels (every shorthand x 5 roots x "
         "{no bass, 11 bass degrees} x {no / added / omitted degree} + N + X + respellings); the estimate shares "
         "the reference root in ~half of the pairs; non-trivial = reference is not X and roots agree")
@@ -115,7 +119,84 @@ def suite_gen_rotate(rng, tier, shard, nshards):
         yield case(bm, root, "rows" if ln == 12 else "other-lengths")
 
 
-SUITES = {"reachable": suite_reachable, "rules_random": suite_rules_random, "rules_exhaustive": suite_rules_exhaustive,
+# labels outside the pool: grammar-valid but not encodable (InvalidChordException from encode_many), and strings that
+# validate_chord_label rejects (InvalidChordException from validate)
+UNENCODABLE = ["C:aug7", "F#:maj11", "Bb:aug7/3", "C:maj11(9)"]
+INVALID = ["", "H:maj", "C:foo", "C:maj/", "c:maj", "C:maj(", "N:maj", "C::maj", "C:maj/8b", "X/3", " C", "C:maj7 ", "Q"]
+
+
+def _np_rows(rows):
+    return [np.array(r, dtype=np.int64) for r in rows]
+
+
+def suite_gen_chordcmp(rng, tier, shard, nshards):
+    """driver op `gen.chordcmp <function> <ref labels> <est labels>`: the definitions REGENERATED from the source
+    (lean/MirGen/ChordCmp.lean, over the primitives of MirModel/PyCmp.lean) against the real functions on whole label LISTS:
+    every pool label as a reference (all qualities x roots x basses, added / omitted degrees, extended chords, N, X,
+    respellings), random batches per rule, the empty lists (mirex: TypeError from a 0-d score), unequal lengths
+    (ValueError before anything else), unencodable and invalid labels on either side, `validate` and
+    `rotate_bitmaps_to_roots` called directly (ragged / short rows, zip truncation, the empty matrix)."""
+    def case(rule, refs, ests, tag):
+        return Case("gen.chordcmp", [rule, list(refs), list(ests)],
+                    lambda: cl.rule_fn(rule)(list(refs), list(ests)),
+                    tag="gen %s:%s" % (rule, tag), info={"rule": rule, "ref": list(refs), "est": list(ests)},
+                    nontrivial=any(r not in ("X",) for r in refs))
+    p = cl.pool()
+    # (1) every pool label is a reference once per run; the rule rotates with the batch
+    mine = [lab for i, lab in enumerate(p) if i % nshards == shard]
+    for k in range(0, len(mine), BATCH):
+        refs = mine[k:k + BATCH]
+        ests = [(cl.draw_pair(rng)[1] if rng.random() < 0.5 else
+                 rng.choice(cl.pool_by_root()[cl.enc(r)[0]])) for r in refs]
+        for j, rule in enumerate(cl.RULES):
+            if tier == "thorough" or (k // BATCH + j) % 3 == 0:
+                yield case(rule, refs, ests, "pool")
+    # (2) random batches of every rule, lengths 1..48
+    for rule in cl.RULES:
+        for _ in range((40 if tier == "thorough" else 6) * 8 // nshards + 1):
+            n = rng.choice([1, 1, 2, 3, 7, 16, 48])
+            pairs = [cl.draw_pair(rng) for _ in range(n)]
+            yield case(rule, [a for a, _ in pairs], [b for _, b in pairs], "random")
+    # (3) corners, once per run
+    if shard == 0:
+        for rule in cl.RULES:
+            yield case(rule, [], [], "empty")
+            yield case(rule, ["C"], ["C", "D:min"], "unequal")
+            yield case(rule, ["C", "G:7", "N"], ["C"], "unequal")
+            yield case(rule, [], ["N"], "unequal")
+            yield case(rule, ["H:maj"], [], "unequal+invalid")
+            yield case(rule, ["N", "X", "N", "X"], ["N", "N", "X", "X"], "sentinels")
+            for bad in UNENCODABLE[:2] + INVALID[:4]:
+                yield case(rule, ["C:maj", bad], ["C:maj", "G"], "bad-ref")
+                yield case(rule, ["C:maj", "G"], [bad, "C:maj"], "bad-est")
+            yield case(rule, ["C:aug7"], ["H"], "bad-both")
+            yield case(rule, ["C:maj/7", "C:min/b7", "A:maj/6", "A:min/b6", "C:maj/2"],
+                       ["C:maj/7", "C:min/b7", "A:maj/6", "A:min", "C:maj/2"], "bass-above-fifth")
+    # (4) validate and rotate_bitmaps_to_roots directly
+    nv = (400 if tier == "thorough" else 60) // nshards + 1
+    for _ in range(nv):
+        n, m = rng.choice([(0, 0), (1, 1), (3, 3), (5, 5), (2, 3), (4, 0)])
+        def lab():
+            u = rng.random()
+            return (rng.choice(INVALID) if u < 0.12 else rng.choice(UNENCODABLE) if u < 0.2 else p[rng.randrange(len(p))])
+        refs, ests = [lab() for _ in range(n)], [lab() for _ in range(m)]
+        yield Case("gen.chordcmp", ["validate", refs, ests],
+                   lambda refs=refs, ests=ests: mir_eval.chord.validate(refs, ests),
+                   tag="gen validate", info={"rule": "validate", "ref": refs, "est": ests}, nontrivial=n > 0)
+    rows = [list(v) for v in mir_eval.chord.QUALITIES.values()]
+    for _ in range(nv):
+        n = rng.choice([0, 1, 2, 5])
+        k = rng.randrange(6)
+        bms = [list(rng.choice(rows)) if k < 4 else [rng.choice([0, 1, 1, -1]) for _ in range(rng.choice([12, 12, 5, 13]))]
+               for _ in range(n)]
+        roots = [rng.randint(-1, 11) if k != 3 else rng.randint(-30, 30) for _ in range(n + (k == 2) - (k == 1 and n > 0))]
+        yield Case("gen.chordcmp", ["rotate_bitmaps_to_roots", bms, roots],
+                   lambda bms=bms, roots=roots: mir_eval.chord.rotate_bitmaps_to_roots(_np_rows(bms), np.array(roots, dtype=np.int64)),
+                   tag="gen rotate_bitmaps_to_roots", info={"rule": "rotate_bitmaps_to_roots", "bitmaps": bms, "roots": roots},
+                   nontrivial=n > 0)
+
+
+SUITES = {"reachable": suite_reachable, "gen_chordcmp": suite_gen_chordcmp, "rules_random": suite_rules_random, "rules_exhaustive": suite_rules_exhaustive,
           "rules_single": suite_rules_single, "gen_chordfn.rotate": suite_gen_rotate}
 
 
@@ -313,9 +394,68 @@ def gen_rotate(rng, tier, shard, nshards, boost):
         yield {"bitmap": bm, "root": rng.randint(0, 11)}
 
 
-CHECKERS = {"chord.lattice": check_lattice, "chord.vocab": check_vocab, "chord.majmin_inv": check_majmin_inv,
+def _documented_score(rule, ref, est):
+    """the documented reading of a rule on ONE label pair, computed from the two encodings with plain Python (no
+    NumPy, none of the comparison code): what is compared (root / third / triad = first 8 semitones / all 12 / + bass),
+    which references are outside the vocabulary (-1); majmin_inv / sevenths_inv at the encoding level (bitmap[bass]),
+    the documented bass-in-triad reading of majmin_inv is the separate site chord.majmin_inv"""
+    (rr, rb, rs), (er, eb, es) = cl.enc(ref), cl.enc(est)
+    rb, eb = list(rb), list(eb)
+    if ref == "X":
+        return -1.0
+    base = rule[:-4] if rule.endswith("_inv") else rule
+    inv_ok = (rs == es) if rule.endswith("_inv") else True
+    if base == "root":
+        return float(rr == er)
+    if base == "thirds":
+        return float(rr == er and rb[3] == eb[3] and inv_ok)
+    if base == "triads":
+        return float(rr == er and rb[:8] == eb[:8] and inv_ok)
+    if base == "tetrads":
+        return float(rr == er and rb == eb and inv_ok)
+    if base == "mirex":
+        if 0 < sum(1 for v in rb if v > 0) < 3:
+            return -1.0
+        if rr == -1 and er == -1:
+            return 1.0
+        pcs = lambda root, bm: {(i + root) % 12 for i, v in enumerate(bm) if v}
+        return float(len(pcs(rr, rb) & pcs(er, eb)) >= 3)
+    is_n = (ref == "N")
+    if base == "majmin":
+        if not (is_n or rb[:8] in (cl.MAJ[:8], cl.MIN[:8])):
+            return -1.0
+        if rule.endswith("_inv") and not is_n and rb[rs] == 0:
+            return -1.0
+        return float(rr == er and rb[:8] == eb[:8] and inv_ok)
+    if base == "sevenths":
+        if not (is_n or rb in cl.SEVENTH_BITMAPS):
+            return -1.0
+        if rule.endswith("_inv") and not is_n and rb[rs] == 0:
+            return -1.0
+        return float(rr == er and rb == eb and inv_ok)
+    raise KeyError(rule)
+
+
+def check_definition(inp):
+    """every rule on one pair returns what its documentation says it compares (root; root + third; root + triad; root +
+    all semitones; the same + bass for *_inv; >= 3 common pitch classes for mirex; the maj/min resp. seventh
+    vocabularies)"""
+    ref, est = inp["ref"], inp["est"]
+    for r in ([inp["rule"]] if inp.get("rule") else cl.RULES):
+        got = float(cl.rule_fn(r)([ref], [est])[0])
+        want = _documented_score(r, ref, est)
+        if got != want:
+            return "%s(%r, %r) = %r, the documented comparison gives %r" % (r, ref, est, got, want)
+    return None
+
+
+def gen_definition(rng, tier, shard, nshards, boost):
+    return _gen_pairs(rng, tier, shard, nshards, boost, 2000, 60000, False)
+
+
+CHECKERS = {"chord.definition": check_definition, "chord.lattice": check_lattice, "chord.vocab": check_vocab, "chord.majmin_inv": check_majmin_inv,
             "chord.rotate_bitmap_to_root": check_rotate}
-ORACLES = {"chord.lattice": gen_lattice, "chord.vocab": gen_vocab, "chord.majmin_inv": gen_majmin_inv,
+ORACLES = {"chord.definition": gen_definition, "chord.lattice": gen_lattice, "chord.vocab": gen_vocab, "chord.majmin_inv": gen_majmin_inv,
            "chord.rotate_bitmap_to_root": gen_rotate}
 
 
@@ -333,10 +473,24 @@ def classify(suite, d):
         return ("chord.rotate_bitmap_to_root", {"bitmap": i["bitmap"], "root": i["root"]}) if len(i["bitmap"]) == 12 else None
     if suite == "reachable":
         return "chord.lattice", {"ref": i["label"], "est": i["label"], "est2": "N"}
+    if suite == "gen_chordcmp":
+        if i.get("rule") not in cl.RULES or not i["ref"] or len(i["ref"]) != len(i["est"]):
+            return None
+        import re
+        m = re.match(r"\[(\d+)\]", d.get("diff") or "")
+        k = int(m.group(1)) if m and int(m.group(1)) < len(i["ref"]) else 0
+        if cl.enc(i["ref"][k]) is None or cl.enc(i["est"][k]) is None:
+            return None
+        inp = {"ref": i["ref"][k], "est": i["est"][k], "est2": "N"}
+        if check_lattice(inp) is None and check_vocab(inp) is not None:
+            return "chord.vocab", inp
+        return "chord.lattice", inp
     refs, ests = i["ref"], i["est"]
     k = _diff_pair_index(d) if len(refs) > 1 else 0
     k = k if k < len(refs) else 0
     inp = {"ref": refs[k], "est": ests[k], "est2": "N"}
     if check_lattice(inp) is None and check_vocab(inp) is not None:
         return "chord.vocab", inp
+    if check_lattice(inp) is None and check_definition(inp) is not None:
+        return "chord.definition", {"ref": inp["ref"], "est": inp["est"]}
     return "chord.lattice", inp
